@@ -109,7 +109,8 @@ func (in *InExpr) Eval(input []reflect.Value, isVariadic bool) (bool, error) {
 outer:
 	for _, one := range in.expressions {
 		if len(input) != len(one) {
-			return false, nil
+			// 参数个数不一致, 继续尝试下一组条件
+			continue
 		}
 		for i, param := range one {
 			v, err := param.Eval([]reflect.Value{input[i]}, isVariadic)
